@@ -550,6 +550,12 @@ func cmdCheck(args []string) int {
 		ev.Coverage.Slowest = append(ev.Coverage.Slowest, map[string]interface{}{"obligation": slow[i], "seconds": round3(ns.Seconds), "instances": ns.Instances, "solver": ns.Solver})
 	}
 	ev.Coverage.Instances = len(all)
+	ev.Coverage.ByBackend = map[string]int{}
+	for _, o := range all {
+		if o.Status == "unsat" {
+			ev.Coverage.ByBackend[strings.TrimSuffix(o.Solver, " (cached)")]++
+		}
+	}
 	ev.Coverage.SolverSeconds = round3(solverTime)
 	ev.Coverage.LoadSeconds = round3(loadS)
 	ev.Coverage.Undecided = undecided
@@ -691,6 +697,7 @@ type Evidence struct {
 		Slowest       []interface{}            `json:"slowest_obligations,omitempty"`
 		Selftest      string                   `json:"selftest_corpus,omitempty"`
 		Seeded        string                   `json:"seeded_changes,omitempty"`
+		ByBackend     map[string]int           `json:"instances_discharged_by_backend,omitempty"`
 	} `json:"coverage"`
 	Assumptions []string `json:"assumptions"`
 	WallS       float64  `json:"wall_s"`
